@@ -41,7 +41,8 @@ ASSUMPTIONS = [
     'key names have the form identity/KEY/key-id, which get_signer relies on',
 ]
 
-ID_POOL = [['a'], ['a', 'b'], ['c'], ['d', 'e', 'f']]
+# (the last identity has a component spelled like the KEY marker of key names)
+ID_POOL = [['a'], ['a', 'b'], ['c'], ['d', 'e', 'f'], ['org', 'KEY', 'escrow']]
 EC_POOL = ['p256-0', 'p256-1', 'p256-2', 'p256-3']
 RSA_POOL = ['rsa2048-0', 'rsa2048-1']
 
@@ -101,8 +102,27 @@ class FaultyTpm(TpmFile):
         return super().save_key(key_name, key_der)
 
     def delete_key(self, key_name):
-        self.fault.step('tpm')
-        return super().delete_key(key_name)
+        # the failure happens INSIDE the key store, at the file operation (e.g. EACCES on the key directory)
+        real_os = tpm_file_mod.os
+        fault = self.fault
+
+        class _Os:
+            def __getattr__(self, n):
+                return getattr(real_os, n)
+
+            def remove(self, path):
+                if fault.at is not None:
+                    fault.count += 1
+                    if fault.count == fault.at:
+                        fault.fired = True
+                        fault.at = None
+                        raise PermissionError(13, 'injected: permission denied', path)
+                return real_os.remove(path)
+        tpm_file_mod.os = _Os()
+        try:
+            return super().delete_key(key_name)
+        finally:
+            tpm_file_mod.os = real_os
 
     def get_signer(self, key_name, key_locator_name=None):
         self.fault.step('tpm')
